@@ -246,7 +246,9 @@ fn id(
     _: &mut model::Context,
 ) -> error::Result<model::Value> {
     if node.owner_document().map(|v| v.doc_type()).is_some() {
-        unimplemented!()
+        Err(dom::error::Error::Dom(
+            dom::error::DomException::NotSupportErr,
+        ))?
     } else {
         Ok(model::Value::Node(vec![]))
     }
